@@ -53,7 +53,7 @@ var Check = &run.Check{
 	Run: runCase,
 }
 
-var opts = javagen.Opts{MinFiles: 1, MaxFiles: 12, MaxMethods: 10, MaxParams: 7, MaxFields: 4, Interfaces: true, Generics: true, Annotations: true, Ctors: true,
+var opts = javagen.Opts{ExoticNames: true, MinFiles: 1, MaxFiles: 12, MaxMethods: 10, MaxParams: 7, MaxFields: 4, Interfaces: true, Generics: true, Annotations: true, Ctors: true,
 	Overloads: true, Excluded: true, Bodies: true, MaxStmts: 4, MaxSites: 10, LongNames: true, Lambdas: true, CStyleArrays: true, SuffixImports: true, SameNameTwoPkgs: true}
 
 func shape(p *javagen.Project) string {
@@ -189,9 +189,12 @@ func runCase(c *run.Ctx, o *run.Outcome) {
 				continue
 			}
 			m := ms[c.Rng.Intn(len(ms))]
+			// same byte length (the file size does not change), so only ASCII positions are redrawn
 			nb := []byte(m.Name)
 			for i := 1; i < len(nb); i++ {
-				nb[i] = "abcdefghijklmnopqrstuvwxyz"[c.Rng.Intn(26)]
+				if nb[i] < 0x80 {
+					nb[i] = "abcdefghijklmnopqrstuvwxyz"[c.Rng.Intn(26)]
+				}
 			}
 			nn := string(nb)
 			clash := nn == m.Name
